@@ -41,7 +41,9 @@ impl Typstyle {
             return Err(Error::SyntaxError);
         };
         // Infer indent from context.
-        let indent = utils::count_spaces_after_last_newline(source.text(), range.start);
+        // The indentation is that of the node that gets replaced, not of the requested range,
+        // which may start further down and deeper inside the node.
+        let indent = utils::count_spaces_after_last_newline(source.text(), node.range().start);
         let res = doc
             .nest(indent as isize)
             .pretty(self.config.max_width)
